@@ -177,7 +177,7 @@ pub fn run(args: &Args, report: &mut Report) {
     let corpus: Vec<Prog> = corpus().iter().map(|t| prog::parse_tokens(t).expect("corpus parses")).collect();
     c15::run_batch(&corpus, report, &mut seen, "C41");
     let mut rng = Rng::new(args.seed);
-    let n = if args.thorough() { 60_000 } else { 2_500 };
+    let n = if args.thorough() { 200_000 } else { 2_500 };
     let mut batch = Vec::new();
     let mut made = 0;
     let mut tries = 0;
